@@ -433,7 +433,10 @@ pub fn gen_intern(seed: u64, tier: &str) -> Vec<String> {
             out.push(format!("case {}", case));
             case += 1;
             out.push(format!("interner {}", b));
-            let distinct = if *b == "rodeo_micro" { 300 } else if *b == "rodeo_mini" && i == 0 && tier == "thorough" { 66000 } else { 50 + rng.below(400) };
+            // (exhausting the 16-bit key space of `rodeo_mini` needs 65536 strings: the list-based model then makes the
+            // run take many minutes; the 8-bit `rodeo_micro` goes through the same code of the crate)
+            let _ = i;
+            let distinct = if *b == "rodeo_micro" { 300 } else if *b == "rodeo_mini" && tier == "thorough" { 2000 + rng.below(2000) } else { 50 + rng.below(400) };
             let ops = distinct * 2;
             for _ in 0..ops {
                 let k = rng.below(distinct);
